@@ -68,11 +68,20 @@ theorem writeStriped_zero_len (cv : Int → Option Int) (h : Heap) (src : List (
     unfold Buf.length; rw [hl]; exact channelLength_zero_len _
   simp [hc, hL, wsChans_zero, Res.bind]
 
+private theorem chanLen_zero (b : Buf) (hL : b.length = 0) (c : Nat) : b.chanLen c = 0 := by
+  unfold Buf.chanLen; split <;> omega
+
 private theorem rsChans_zero (cv : Int → Option Int) (h : Heap) (src : Buf) (hL : src.length = 0) (c : Nat)
     (cols : List (List Int)) : rsChans cv h src c cols = .ok h cols := by
   induction cols generalizing c with
   | nil => rfl
-  | cons col cols ih => simp [rsChans, rsChan, hL, Res.bind, ih]
+  | cons col cols ih => simp [rsChans, rsChan, chanLen_zero src hL, Res.bind, ih]
+
+private theorem rsCount_zero (src : Buf) (hL : src.length = 0) (c : Nat) (cols : List (List Int)) :
+    rsCount src c cols = 0 := by
+  induction cols generalizing c with
+  | nil => rfl
+  | cons col cols ih => simp [rsCount, chanLen_zero src hL, ih]
 
 private theorem foldl_max_zero (cols : List (List Int)) (m : Nat) :
     cols.foldl (fun m col => max m (min col.length 0)) m = m := by
@@ -86,7 +95,7 @@ theorem readStriped_zero_len (cv : Int → Option Int) (h : Heap) (src : Buf) (d
   unfold readStriped
   have hL : src.length = 0 := by
     unfold Buf.length; rw [hl]; exact channelLength_zero_len _
-  simp [hc, hL, rsChans_zero, Res.bind, foldl_const]
+  simp [hc, hL, rsChans_zero, rsCount_zero, Res.bind]
 
 /-- single-sample appends are no-ops on zero-capacity buffers, for any number of calls -/
 theorem appendSamples_inert (h : Heap) (b : Buf) (vs : List Int) (hc : b.cap = 0) (hl : b.len = 0) :
